@@ -153,6 +153,23 @@ def findLoop (p : PList) (v : Int) : Nat → Nat → Option Nat
 
 def find (p : PList) (v : Int) : Option Nat := findLoop p v p.size p.begin
 
+/-- the loop of `operator==` once the sizes have been found equal:
+    `for(a = _begin.item, b = other._begin.item; a != &endItem; a = a->next, b = b->next) if(a->value != b->value) return false; return true;`
+    (`p`/`q` = the heaps of the two lists; reading the value of `other`'s sentinel or following a null pointer is a fault) -/
+def eqLoop (p q : PList) : Nat → Nat → Nat → Option Bool
+  | _, 0, _ => some true
+  | 0, _ + 1, _ => none
+  | _ + 1, _ + 1, 0 => none
+  | fuel + 1, a + 1, b + 1 =>
+    if p.val (a + 1) ≠ q.val (b + 1) then some false
+    else match p.next (a + 1), q.next (b + 1) with
+      | some a', some b' => eqLoop p q fuel a' b'
+      | _, _ => none
+
+/-- `operator==`: `if(_size != other._size) return false;` then the loop -/
+def eqLists (p q : PList) : Option Bool :=
+  if p.size ≠ q.size then some false else eqLoop p q p.size p.begin q.begin
+
 /-- `remove(const T& value)`: `it = find(value); if(it != _end) remove(it);` -/
 def removeValue (p : PList) (v : Int) : Option PList :=
   match find p v with
